@@ -72,7 +72,7 @@ Theorem C12_api_returned_file_is_faithful : forall l ps hc w st' bs,
   NoDup (concat (map lf_sids (b_lfs st))) ->
   exists groups,
     write_file {| sul_seq := w_seq w; sul_vrl := w_vrl w; sul_id := w_ident w |} (concat groups) = OK bs
-    /\ Forall2 (lf_group st') (map lf_sids (b_lfs st)) groups
+    /\ Forall2 (lf_group st') (b_lfs st) groups
     /\ skeeps st st'.
 Proof.
   intros l ps hc w st' bs st H Hnd.
